@@ -41,7 +41,7 @@ impl<'a> Name<'a> {
     c.wrap(rel, LABEL_IMPL)
 
     # ---- Name inherent impl: iter, plain_append verified; the rest outside Verus for now
-    verified = ('iter', 'plain_append')
+    verified = ('iter', 'plain_append', 'compress_append')
     for fn in list_fns(c, rel, NAME_IMPL):
         if fn not in verified:
             c.mark(rel, NAME_IMPL, fn, '#[verifier::external]')
@@ -86,13 +86,19 @@ impl<'a> Name<'a> {
     c.wrap(rel, NAME_IMPL)
 
     # ---- WireFormat for Name
-    c.mark(rel, NAME_WF, 'write_compressed_to', '#[verifier::external_body]')
     c.mark(rel, NAME_WF, 'len', '#[verifier::external_body]')
     c.sub(rel, NAME_WF, NAME_WF + """
     open spec fn wf_ok(&self) -> bool { name_ok(self.lv()) }
     open spec fn wf_enc(&self) -> Seq<u8> { name_enc(self.lv()) }
     open spec fn wf_dec(data: Seq<u8>, p: int, v: &Self, p2: int) -> bool {
         dec_labels(data, p, 0) == Some(v.lv()) && p2 == p + inplace_len(data, p)
+    }
+    open spec fn wf_cdec(data: Seq<u8>, p: int, v: &Self, p2: int) -> bool { Self::wf_dec(data, p, v, p2) }
+    open spec fn wf_canon(&self) -> bool { true }
+    open spec fn wf_nocomp() -> bool { false }
+    proof fn lemma_rt(&self, pre: Seq<u8>) {
+        lemma_name_roundtrip(pre, self.lv(), Seq::empty());
+        assert(pre + name_enc(self.lv()) + Seq::<u8>::empty() =~= pre + name_enc(self.lv()));
     }
 """)
     c.contract(rel, NAME_WF, 'parse', """
